@@ -80,6 +80,13 @@ def main():
             r = {"t": "meas", "m": ["int", "0", "1"] if rz else ["int", "4", "1"], "s": ["float", "1", "8"], "u": FAM["L"][0] if op in ("add", "sub") else FAM["T"][1]}
             cases.append({"op": op, "l": l, "r": r})
         cases.append({"op": op, "l": {"t": "qty", "m": ["float", "7", "2"], "u": FAM["L"][3]}, "r": {"t": "meas", "m": ["int", "3", "1"], "s": ["float", "1", "4"], "u": FAM["L"][0] if op in ("add", "sub") else FAM["M"][0]}})
+    # zero measurands of every numeric type under every positive power (the slope n*x**(n-1) needs x**0 = 1 at n = 1), and in products
+    for kind in ("int", "float", "dec"):
+        z = [kind, "0", "1"]; sgm = [kind, "1", "2"] if kind != "int" else ["int", "1", "1"]
+        for e in (1, 2, 3, 4):
+            cases.append({"op": "pow", "l": {"t": "meas", "m": z, "s": sgm, "u": FAM["L"][0]}, "r": e})
+        for op in ("mul", "add", "sub"):
+            cases.append({"op": op, "l": {"t": "meas", "m": z, "s": sgm, "u": FAM["L"][0]}, "r": {"t": "meas", "m": [kind, "3", "1"], "s": sgm, "u": FAM["L"][1] if op != "mul" else FAM["T"][0]}})
     recs = impl("meas_worker.py", {"cases": cases})["results"]
     terms, keep = [], []
     stats = {"formula_checked": 0, "raised": 0}
@@ -124,6 +131,29 @@ def main():
         if res["u"]["f"] != res["su"]["f"] or res["u"]["p"] != res["su"]["p"]:
             c.violation("uncertainty-unit", "uncertainty is not in the measurand's unit", repl)
         terms.append(f"(MkM {mop} {cQ(x)} {cQ(sx)} {cQ(y)} {cQ(sy)} {cQ(got_val)} {cQ(got_s)})"); keep.append(i)
+    # ---------------- operands on temperature scales: an uncertainty is an interval width, it scales with the unit's size and ignores the zero point
+    SLOPE = {"kelvin": Fraction(1), "celsius": Fraction(1), "Rankine": Fraction(5, 9), "fahrenheit": Fraction(5, 9)}
+    ZERO = {"kelvin": 0, "celsius": 1, "Rankine": 0, "fahrenheit": 2}     # which zero point the scale uses
+    tcases = []
+    for op in ("add", "sub"):
+        for ul in SLOPE:
+            for ur in SLOPE:
+                tcases.append({"op": op, "l": {"t": "meas", "m": ["int", "20", "1"], "s": ["float", "1", "2"], "u": [[None, ul, 1]]},
+                               "r": {"t": "meas", "m": ["int", "5", "1"], "s": ["float", "1", "4"], "u": [[None, ur, 1]]}})
+    for cs, rec in zip(tcases, impl("meas_worker.py", {"cases": tcases})["results"]):
+        c.count(cs, nontrivial=True)
+        res = rec["res"]
+        ul, ur = cs["l"]["u"][0][1], cs["r"]["u"][0][1]
+        repl = {"case": cs, "implementation": res}
+        if "err" in res:
+            c.violation(f"raises:{cs['op']}:{res['err']}", f"{cs['op']} on temperature measurements raised {res['err']}", repl); continue
+        if len(res.get("s", [])) != 3: continue
+        want_sq = Fraction(1, 2) ** 2 + (Fraction(1, 4) * SLOPE[ur] / SLOPE[ul]) ** 2
+        got = frac(res["s"])
+        if abs(got ** 2 - want_sq) > Fraction(1, 10**9) * (want_sq + got ** 2):
+            key = "uncertainty:offset-scales" if ZERO[ul] != ZERO[ur] else f"uncertainty:{cs['op']}:temperature"
+            c.violation(key, f"(20 +- 0.5 {ul}) {cs['op']} (5 +- 0.25 {ur}) has uncertainty {float(got)}; first-order propagation gives {float(want_sq) ** 0.5} "
+                             f"(the other operand's uncertainty converted as an interval)", repl)
     files = {}
     sh = 350
     for k in range(0, len(terms), sh):
